@@ -523,6 +523,24 @@ fn cases(tier: Tier) -> Vec<Case> {
             }
         }
     }
+    // longer plain chains (a third and fourth print action on the same port): model only
+    let pa = plain_actions();
+    for n in 3..=4usize {
+        for mut i in 0..pa.len().pow(n as u32) {
+            let mut p = vec![];
+            for _ in 0..n {
+                p.push(pa[i % pa.len()].clone());
+                i /= pa.len();
+            }
+            progs.push(p);
+        }
+    }
+    let fa = framed_actions();
+    for a in &fa {
+        for b in &fa {
+            progs.push(vec![a.clone(), b.clone(), fa[0].clone()]);
+        }
+    }
     progs.sort_by_key(|p| format!("{p:?}"));
     progs.dedup();
     let mut out = vec![];
@@ -530,6 +548,9 @@ fn cases(tier: Tier) -> Vec<Case> {
         for threads in [2usize, 3] {
             // shuttle's DFS has no partial-order reduction: 2 threads x 1..2 calls and 3 x 1 are feasible
             let calls = p.len();
+            if calls >= 4 && threads == 3 {
+                continue; // 3 threads x 4 calls: state space too large for the quick tier's budget
+            }
             let shuttle = match (tier, threads, calls) {
                 (_, 2, 1) => true,
                 (Tier::Quick, 2, 2) => out.iter().filter(|c: &&Case| c.shuttle && c.items.len() == 2).count() < 4,
@@ -570,7 +591,7 @@ pub fn run(ctx: &Ctx) -> i32 {
             level: "model_checking",
             exhaustive: true,
             rule: "step programs (lock / write / unlock) are extracted from the emitted policy by executing it in the runtime model under a recording host; stateright explores every interleaving (BFS and DFS, state counts compared, and compared with an independent search) and checks: no deadlock, mutexes released by their holder, and at every terminal state the shared port splits into exactly the whole records the threads must deliver (frames payload/separator/tag computed from the reference side and io_map(), or terminated lines); the same emitted program is then run by the interpreter on shuttle threads with real blocking mutexes under shuttle's exhaustive DFS scheduler, and the set of final port contents must equal the model's set of terminal states; states = distinct model states, traces_validated_against_impl = shuttle schedules executed".into(),
-            bound: "every AND chain of 1..2 printer actions over {-print, -printf '%P\\n'} (plain) and {-print0, -fprint f, -fprintf g '%P', -print} (framed) x 2 and 3 threads (model: all; shuttle: 2 threads x 1 call all, 2 x 2 a subset in quick / all in thorough, 3 x 1 in thorough)".into(),
+            bound: "every AND chain of 1..2 printer actions over {-print, -printf '%P\\n'} (plain) and {-print0, -fprint f, -fprintf g '%P', -print} (framed), every plain chain of 3..4 actions and every framed pair followed by -print0, x 2 and 3 threads (3 threads up to 3 calls) in the model; under shuttle: 2 threads x 1 call all, 2 x 2 a subset in quick / all in thorough, 3 x 1 in thorough".into(),
             assumptions: vec![
                 "make-printer = (lambda (s) (with-mutex mutex (display s port) (if term (write-char term port)))); display / write-char of one string or character is one atomic port write".into(),
                 "each thread runs the policy thunk once, on its own file record".into(),
